@@ -366,7 +366,11 @@ def main():
                 m = {'model': {'driver_error': m.get('error')}}
         if o is None:
             continue
-        verdicts = mod.judge(c['case'], o, m)      # list of (kind, reason[, finding_id])
+        if isinstance(o, dict) and ('hang' in o or 'abort' in o) and set(o) <= {'hang', 'abort'}:
+            # the executor spun or died on this very case: that is a failure of the implementation whatever the property says about the value
+            verdicts = [('violation', ('the implementation did not come back on this case (hang)' if 'hang' in o else f'the implementation aborted the process on this case ({o["abort"]})'))]
+        else:
+            verdicts = mod.judge(c['case'], o, m)      # list of (kind, reason[, finding_id])
         for v in verdicts:
             kind, reason = v[0], v[1]
             fid = v[2] if len(v) > 2 else None
